@@ -6,6 +6,8 @@
 
 package salsa
 
+import "golang.org/x/crypto/internal/alias"
+
 //go:noescape
 
 // salsa2020XORKeyStream is implemented in salsa20_amd64.s.
@@ -19,5 +21,8 @@ func XORKeyStream(out, in []byte, counter *[16]byte, key *[32]byte) {
 		return
 	}
 	_ = out[len(in)-1]
+	if alias.InexactOverlap(out[:len(in)], in) {
+		panic("salsa20: invalid buffer overlap")
+	}
 	salsa2020XORKeyStream(&out[0], &in[0], uint64(len(in)), &counter[0], &key[0])
 }
